@@ -24,6 +24,9 @@ type CondEval struct {
 	// Leaf lets the client decide a leaf and refine the state on each edge
 	// (tried first).
 	Leaf func(e ast.Expr, s S) (t, f []S, handled bool)
+	// LeafLate is like Leaf but tried after Fold and Atom (generic refinements
+	// that must not pre-empt a rule's own atoms).
+	LeafLate func(e ast.Expr, s S) (t, f []S, handled bool)
 }
 
 type sv struct {
@@ -112,6 +115,18 @@ func (ce *CondEval) eval(e ast.Expr, s S) []sv {
 					continue
 				}
 				out = append(out, sv{s2, (val == "T") != neg})
+			}
+			return out
+		}
+	}
+	if ce.LeafLate != nil {
+		if t, f, ok := ce.LeafLate(e, s); ok {
+			var out []sv
+			for _, x := range t {
+				out = append(out, sv{x, true})
+			}
+			for _, x := range f {
+				out = append(out, sv{x, false})
 			}
 			return out
 		}
